@@ -130,6 +130,9 @@ func cmdQuoteEnum(args []string) {
 		if strings.ContainsAny(w, "\"\x00") || !utf8.ValidString(w) {
 			return
 		}
+		if looksNumeric(w) { // the number spelled bare is rendered first: nothing of that call may show in the quoted one
+			valueForms(r, "f:"+w)
+		}
 		line := map[string]any{"id": id, "wsyms": append([]string{}, seq...), "w": codes(w), "quoted": valueForms(r, `f:"`+w+`"`)}
 		applicable := w != "" && !looksNumeric(w) && !isKeyword(w)
 		line["esc_applicable"] = applicable
